@@ -37,6 +37,9 @@ inline Issue judgeFloatToken(const MValue& m, const std::string& tok) {
   if (ax < 1e-300L || ax > 1e300L) return is;  // outside the range of the C12 bound: any well-formed number
   long double tol = (m.kind == MValue::F32 ? 1e-6L : 1e-9L) * (ax > 1 ? ax : 1.0L);
   if (fabsl(v - lx) > tol) {
+    // class marker for the case key: a double that is exactly representable as a float and is printed within the
+    // *float* bound (the library stores such a double as a float, deviation D18)
+    if (m.kind == MValue::F64 && double(float(x)) == x && fabsl(v - lx) <= 1e-6L * (ax > 1 ? ax : 1.0L)) is.leaf += ":f32rep";
     char b[200];
     snprintf(b, sizeof b, "%s %.17g printed as %s: error %.3Lg exceeds %.3Lg", m.kind == MValue::F32 ? "float" : "double", x,
              tok.c_str(), fabsl(v - lx), tol);
@@ -268,8 +271,8 @@ inline const char* kindName(const MValue& m) {
 
 // report the text-level verdicts of one operation (shared with C07-J)
 inline void reportIssues(Ctx& C, const std::string& kop, const Issue& fatal, bool bad, const std::vector<Issue>& soft) {
-  if (bad) C.failKey(kop + (fatal.leaf.empty() ? "" : "|leaf=" + fatal.leaf), fatal.clause, fatal.detail);
-  for (auto& is : soft) C.failKey(kop + "|leaf=" + is.leaf, is.clause, is.detail);
+  if (bad) C.failKey(kop + (fatal.leaf.empty() ? "" : "|leaf=" + fatal.leaf) + "|c=" + fatal.clause, fatal.clause, fatal.detail);
+  for (auto& is : soft) C.failKey(kop + "|leaf=" + is.leaf + "|c=" + is.clause, is.clause, is.detail);
 }
 
 inline void checkJsonDoc(Ctx& C, const MValue& m, int sto, size_t fullLimit) {
@@ -323,6 +326,11 @@ inline void checkJsonDoc(Ctx& C, const MValue& m, int sto, size_t fullLimit) {
   }
   // (b) the two differ only in insignificant whitespace
   if (stripWs(pretty) != stripWs(compact)) C.failKey(kp, "pretty-differs", firstDiff(stripWs(pretty), stripWs(compact)));
+  {  // operator<<(std::ostream&, document) is serializeJson
+    std::ostringstream os;
+    os << doc;
+    if (os.str() != compact) C.failKey(kc + "|dst=operator<<", "dst-differs", firstDiff(os.str(), compact));
+  }
   // (c) destinations, (d) capacities
   checkDestinations(C, key, OpJson, v, compact);
   checkDestinations(C, key, OpPretty, v, pretty);
@@ -342,6 +350,7 @@ inline void runJson(Ctx& C) {
   o.nodes = atoi(C.opt("nodes", T ? "4" : "3").c_str());
   o.deepFrom = atoi(C.opt("deepfrom", "64").c_str());
   if (T) o.deep = {100, 300};
+  o.exactOnly = atoi(C.opt("exact", "0").c_str());
   const size_t fullLimit = size_t(atoi(C.opt("fullcaps", T ? "2048" : "600").c_str()));
   std::vector<std::string> bounds;
   forEachDoc(o, [&](const MValue& m, int sto) {
